@@ -31,8 +31,8 @@ OK_EXC = ('MatrixError', 'ToleranceNotReached', 'BackendNotAvailable', 'SolverEr
 
 def budget(tier):
     if tier == 'quick':
-        return dict(n=12000, wall=70, dup=80)
-    return dict(n=400000, wall=1500, dup=400)
+        return dict(n=3200, wall=75, dup=60)
+    return dict(n=70000, wall=1500, dup=300)
 
 
 # ---------------------------------------------------------------------- the faulty back end
@@ -50,6 +50,7 @@ class Plan:
 
 
 PLAN = Plan({})
+_STATE = {}
 
 
 def _make_backend():
@@ -219,21 +220,23 @@ def gen_solve_op(rng, n):
     op['rtol'] = rng.choice([1e-12, 1e-8, 1e-3]) if tol in ('rtol', 'both') else 0.
     op['solver'] = rng.choice(['arnoldi', 'arnoldi', 'direct'])
     op['precon'] = rng.choice(['direct', 'direct', 'direct', 'diag'])
-    op['truncate'] = rng.choice([None, None, 1, 2]) if op['solver'] == 'arnoldi' else None
+    # truncated Krylov only with the direct preconditioner: with a weak (diagonal) one the residual keeps decreasing by
+    # negligible amounts and the loop, which has no iteration cap, runs for hours (slow convergence, not a violation)
+    op['truncate'] = rng.choice([None, None, 1, 2]) if op['solver'] == 'arnoldi' and op['precon'] == 'direct' else None
     op['symmetric'] = rng.random() < 0.3
     return op
 
 
 def gen_system_spec(rng):
     n = rng.choice([1, 2, 3, 4, 6])
-    kind = rng.choice(['linear', 'linear', 'cubic', 'cubic', 'mixed3', 'sqrt', 'time', 'time'])
+    kind = rng.choice(['linear', 'linear', 'linparam', 'cubic', 'cubic', 'mixed3', 'sqrt', 'time', 'time'])
     return dict(n=n, kind=kind, mat=gen_matrix_spec(rng, n), sseed=rng.randrange(1 << 30), functional=rng.random() < 0.5, coef=rng.choice([0.1, 1., 10.]))
 
 
 def gen_system_op(rng, spec):
     n = spec['n']
     r = rng.random()
-    linear = spec['kind'] in ('linear',) or (spec['kind'] == 'time' and spec.get('tlin', True))
+    linear = spec['kind'] in ('linear', 'linparam') or (spec['kind'] == 'time' and spec.get('tlin', True))
     if spec['kind'] == 'time':
         return dict(op='step', tol=rng.choice([1e-10, 1e-8, 1e-6]), timestep=rng.choice([0.5, 0.1, 1.0, 4.]), maxretry=rng.choice([0, 1, 2]),
                     method=rng.choice([None, None, 'newton', 'linesearch']), cons=rng.choice(['none', 'bool', 'float']), cmask=[rng.random() < 0.3 for _ in range(n)],
@@ -241,13 +244,13 @@ def gen_system_op(rng, spec):
     if linear and r < 0.2:
         return dict(op='constraints', droptol=rng.choice([1e-12, 1e-6, 1e-2, 1.0]), cons=rng.choice(['none', 'bool', 'float']), cmask=[rng.random() < 0.3 for _ in range(n)], vseed=rng.randrange(1 << 30))
     if linear:
-        method = rng.choice([None, None, 'direct', 'arnoldi', 'newton', 'linesearch', 'minimize', 'legacy_linear'])
+        method = rng.choice([None, None, 'direct', 'direct_noatol', 'arnoldi', 'arnoldi', 'newton', 'linesearch', 'minimize', 'legacy_linear'])
     else:
         method = rng.choice([None, 'newton', 'newton', 'reuse', 'linesearch', 'linesearch_median', 'minimize', 'pseudotime', 'legacy_newton', 'legacy_minimize'])
     op = dict(op='solve', method=method, cons=rng.choice(['none', 'none', 'bool', 'float']), cmask=[rng.random() < 0.3 for _ in range(n)],
-              guess=rng.choice(['none', 'rand', 'rand', 'far']), vseed=rng.randrange(1 << 30), maxiter=rng.choice([3, 10, 25, 60]), miniter=rng.choice([0, 0, 0, 1, 2]))
+              kappa=rng.choice([0., .5, 2., -1.]), guess=rng.choice(['none', 'rand', 'rand', 'far']), vseed=rng.randrange(1 << 30), maxiter=rng.choice([3, 10, 25, 60]), miniter=rng.choice([0, 0, 0, 1, 2]))
     op['tol'] = rng.choice([1e-10, 1e-8, 1e-5, 1e-2]) if (not linear or method not in (None, 'direct', 'legacy_linear') or rng.random() < 0.5) else 0.
-    if method in ('direct', 'arnoldi', None) and linear:
+    if method in ('direct', 'direct_noatol', 'arnoldi', None) and linear:
         op['twice_guess'] = rng.random() < 0.5   # metamorphic: result independent of the initial guess
     return op
 
@@ -432,6 +435,11 @@ def build_system(spec):
     if kind == 'linear':
         vec = fA @ u - fb
         res = lambda U, **k: A @ U - b
+    elif kind == 'linparam':
+        A1 = r.randn(n, n) * .3
+        kappa = function.Argument('kappa', ())
+        vec = (fA + kappa * function.Array.cast(A1)) @ u - fb
+        res = lambda U, kappa=0., **k: (A + kappa * A1) @ U - b
     elif kind == 'cubic':
         vec = fA @ u - fb + c * u**3
         res = lambda U, **k: A @ U - b + c * U**3
@@ -463,8 +471,13 @@ def _method(op, system, spec):
         return None
     if m == 'direct':
         return solver.Direct(atol=tol) if tol else solver.Direct()
+    if m == 'direct_noatol':
+        return solver.Direct()
     if m == 'arnoldi':
-        return solver.Arnoldi(maxiter=2)
+        # one Arnoldi object per history: it keeps the previous factorisation for reuse when the matrix changes
+        if 'arnoldi' not in _STATE:
+            _STATE['arnoldi'] = solver.Arnoldi(maxiter=2)
+        return _STATE['arnoldi']
     if m == 'newton':
         return solver.Newton()
     if m == 'reuse':
@@ -565,10 +578,16 @@ def _do_solve(system, resfun, info, spec, op, constrain, cmask, cvals):
     n = spec['n']
     guess = _guess(op, n)
     args = {} if guess is None else {'u': guess.copy()}
+    resargs = {}
+    if spec['kind'] == 'linparam':
+        args['kappa'] = numpy.array(op.get('kappa', 0.))
+        resargs['kappa'] = op.get('kappa', 0.)
     want = _expected_constrained(op, cmask, cvals, guess, n)
     tol = op.get('tol', 0.)
     m = op.get('method')
     linear = system.is_linear
+    if m in ('legacy_linear', 'legacy_newton') and spec['kind'] == 'linparam':
+        return None, 'skipped'
     if m == 'legacy_linear':
         # legacy wrapper: residual vector form
         u = solver.solve_linear('u', _legacy_residual(spec), constrain=constrain.get('u'), **({'lhs0': guess} if guess is not None else {}))
@@ -593,17 +612,17 @@ def _do_solve(system, resfun, info, spec, op, constrain, cmask, cvals):
                 kw['tol'] = tol = 1e-8
         out = system.solve(**kw)
     u = numpy.asarray(out['u'], dtype=float)
-    bad = _certify(u, want, resfun, tol, f'solve(method={m})')
+    bad = _certify(u, want, resfun, tol, f'solve(method={m})', **resargs)
     if bad:
         return bad, 'return'
-    if linear and tol == 0 and not PLAN.fired and spec['mat']['cond'] != 'singular':
+    if linear and tol == 0 and not PLAN.fired and spec['mat']['cond'] != 'singular' and spec['kind'] != 'linparam':
         with numpy.errstate(all='ignore'):
             r = resfun(u)[numpy.isnan(want)]
         A = make_matrix(dict(spec['mat'], cplx=False))
         scale = float(numpy.linalg.norm(A, 2)) * float(numpy.linalg.norm(u)) + 1
         if not float(numpy.linalg.norm(r)) <= 1e-7 * scale:
             return ('R-machine-precision', f'linear solve without tolerance on an honest back end left residual {float(numpy.linalg.norm(r)):.3e}'), 'return'
-    if op.get('twice_guess') and linear and not PLAN.faults and op['cons'] != 'bool':
+    if op.get('twice_guess') and linear and not PLAN.faults and op['cons'] != 'bool' and spec['kind'] != 'linparam' and m != 'arnoldi':
         # metamorphic: for linear problems the result does not depend on the initial guess
         g2 = _vec(op['vseed'] + 9, (n,)) * 3
         kw2 = dict(arguments={'u': g2}, constrain=constrain, method=_method(op, system, spec))
@@ -680,10 +699,10 @@ def _do_constraints(system, spec, op, constrain, cmask, cvals):
     n = spec['n']
     if not system.is_symmetric:
         pass
-    out = system.solve_constraints(droptol=op['droptol'], constrain=constrain)
+    out = system.solve_constraints(droptol=op['droptol'], constrain=constrain, **({'arguments': {'kappa': numpy.array(0.)}} if spec['kind'] == 'linparam' else {}))
     u = numpy.asarray(out['u'], dtype=float)
     A = make_matrix(dict(spec['mat'], cplx=False))
-    if spec['functional']:
+    if spec['functional'] and spec['kind'] in ('linear', 'cubic', 'sqrt'):
         A = (A + A.T) / 2
     fixed = numpy.zeros(n, dtype=bool)
     want = numpy.full(n, numpy.nan)
@@ -720,6 +739,7 @@ def run_case(case):
     _pywarnings.simplefilter('ignore')
     numpy.seterr(all='ignore')
     PLAN = Plan(case.get('faults'))
+    _STATE.clear()
     B = _make_backend()
     with treelog.set(treelog.NullLog()):
         if case['kind'] == 'matrix':
